@@ -176,7 +176,7 @@ def _decide(ctx, rule, prog, key, rows, **kw):
         return None
     try:
         paths = sym.paths_of(b, prog, inline_all_loopfree=True)
-        mism, ncases, decided = table.compare(paths, rows, **kw)
+        mism, ncases, decided = table.compare(paths, rows, len_unbounded=True, **kw)
     except (table.Undecided, sym.TooManyPaths) as e:
         ctx.violation(rule, "%s|%s" % (prog.config, key), "table undecided: %s" % e, b.file())
         return None
